@@ -6,6 +6,7 @@ import (
 
 func init() {
 	vHarnesses["VerifH_C03_history"] = VerifH_C03_history
+	vHarnesses["VerifH_C03_graphs"] = VerifH_C03_graphs
 }
 
 // small symbolic identifiers: one byte from a three-letter alphabet, so that
@@ -37,10 +38,15 @@ type c03World struct {
 	diverged bool
 }
 
-func c03Universe() []string { return []string{"a", "b", "c"}[:vParam("NV", 3)] }
+// The identifier universes contain prefix-related names on purpose ("a"/"ab", "e"/"ee",
+// "A"/"AB"): scan prefixes that are not terminated properly confuse exactly those.
+func c03Universe() []string { return []string{"a", "ab", "c"}[:vParam("NV", 3)] }
+func c03EdgeIDs() []string  { return []string{"e", "ee"}[:vParam("NE", 2)] }
+func c03Labels() []string   { return []string{"A", "AB"} }
 
-func c03VHi() byte { return 'a' + byte(vParam("NV", 3)) - 1 }
-func c03EHi() byte { return 'e' + byte(vParam("NE", 2)) - 1 }
+func c03Pick(name string, universe []string) string {
+	return universe[vChoice(name, len(universe))]
+}
 
 // c03Observe compares everything observable about the graph with the model.
 func c03Observe(w *c03World, step string) {
@@ -62,7 +68,7 @@ func c03Observe(w *c03World, step string) {
 		vAssert("C03.out-label", vSortedEq(vObsOut(w.gi, id, []string{"A"}), g.obsOut(id, []string{"A"})))
 		vAssert("C03.inE-label", vSortedEq(vObsInE(w.gi, id, []string{"A"}, true), g.obsInE(id, []string{"A"})))
 	}
-	for _, id := range []string{"e", "f"}[:vParam("NE", 2)] {
+	for _, id := range c03EdgeIDs() {
 		e := w.gi.GetEdge(id, true)
 		i := g.eIndex(id)
 		if i < 0 {
@@ -78,8 +84,8 @@ func c03Observe(w *c03World, step string) {
 }
 
 func c03Vertex(name string) (*gdbi.Vertex, bool) {
-	id := c03ID(name+".id", 'a', c03VHi())
-	label := c03ID(name+".label", 'A', 'B')
+	id := c03Pick(name+".id", c03Universe())
+	label := c03Pick(name+".label", c03Labels())
 	val := vFinite(name + ".val")
 	valid := true
 	switch vChoice(name+".defect", 3) {
@@ -94,10 +100,10 @@ func c03Vertex(name string) (*gdbi.Vertex, bool) {
 }
 
 func c03Edge(name string) (*gdbi.Edge, bool) {
-	id := c03ID(name+".id", 'e', c03EHi())
-	from := c03ID(name+".from", 'a', c03VHi())
-	to := c03ID(name+".to", 'a', c03VHi())
-	label := c03ID(name+".label", 'A', 'B')
+	id := c03Pick(name+".id", c03EdgeIDs())
+	from := c03Pick(name+".from", c03Universe())
+	to := c03Pick(name+".to", c03Universe())
+	label := c03Pick(name+".label", c03Labels())
 	valid := true
 	if vChoice(name+".defect", 2) == 1 {
 		to = ""
@@ -163,7 +169,7 @@ func c03Step(w *c03World, name string) {
 			mutated = true
 		}
 	case 4: // DelVertex
-		id := c03ID(name+".dv", 'a', c03VHi())
+		id := c03Pick(name+".dv", c03Universe())
 		present := g.vIndex(id) >= 0
 		w.gi.DelVertex(id)
 		// deleting a vertex that is absent still removes nothing else
@@ -185,7 +191,7 @@ func c03Step(w *c03World, name string) {
 		}
 		g.delVertex(id)
 	case 5: // DelEdge
-		id := c03ID(name+".de", 'e', c03EHi())
+		id := c03Pick(name+".de", c03EdgeIDs())
 		present := g.delEdge(id)
 		vKnownFor("C03/deledge-leaves-label-entry", present, "C03.edge-labels")
 		err := w.gi.DelEdge(id)
@@ -228,4 +234,80 @@ func VerifH_C03_history() {
 		c03Step(w, "s"+string(rune('0'+s)))
 	}
 	vReach("history.end")
+}
+
+// ---- graphs are isolated from one another ----
+
+func c03GraphIntact(db *KVGraph, name, vid, label string) bool {
+	gi, err := db.Graph(name)
+	if err != nil {
+		return false
+	}
+	v := gi.GetVertex(vid, true)
+	if v == nil || v.Label != label {
+		return false
+	}
+	vl, _ := gi.ListVertexLabels()
+	if len(vl) != 1 || vl[0] != label {
+		return false
+	}
+	scan := c16LabelScan(gi, label)
+	if len(scan) != 1 || scan[0] != vid {
+		return false
+	}
+	e := gi.GetEdge("e", true)
+	el, _ := gi.ListEdgeLabels()
+	return e != nil && e.From == vid && e.To == vid && len(el) == 1 && el[0] == "L" && len(vObsVertexIDs(gi)) == 1 && len(vObsEdgeIDs(gi)) == 1
+}
+
+// VerifH_C03_graphs: two graphs on one store (names possibly prefixes of one
+// another, or starting with a letter the key layout uses); deleting one leaves the
+// other exactly as it was - also after the database is reopened - and elements
+// written to the survivor after the reopen are label-indexed.
+func VerifH_C03_graphs() {
+	names := []string{"g", "gx", "f", "fg", "v", "x.y"}
+	n1 := names[vChoice("graph1", len(names))]
+	n2 := names[vChoice("graph2", len(names))]
+	vAssume(n1 != n2)
+	kv := vNewKV()
+	db := NewKVGraph(kv).(*KVGraph)
+	e1 := db.AddGraph(n1)
+	e2 := db.AddGraph(n2)
+	if e1 != nil || e2 != nil {
+		vReach("graphs.name-refused")
+		return // a refused name creates nothing (checked by C16)
+	}
+	for _, n := range []string{n1, n2} {
+		gi, err := db.Graph(n)
+		vAssert("C03.graphs.created-graph-found", err == nil)
+		if err != nil {
+			return
+		}
+		gi.AddVertex([]*gdbi.Vertex{{ID: "p", Label: "P", Data: map[string]interface{}{"k": 1.0}}})
+		gi.AddEdge([]*gdbi.Edge{{ID: "e", From: "p", To: "p", Label: "L", Data: map[string]interface{}{}}})
+	}
+	vAssert("C03.graphs.both-intact", c03GraphIntact(db, n1, "p", "P") && c03GraphIntact(db, n2, "p", "P"))
+	reopenFirst := vChoice("reopen-before-delete", 2) == 1
+	if reopenFirst {
+		db = NewKVGraph(kv).(*KVGraph)
+	}
+	db.DeleteGraph(n1)
+	gs := db.ListGraphs()
+	vAssert("C03.graphs.deleted-gone", len(gs) == 1 && gs[0] == n2)
+	vAssert("C03.graphs.survivor-intact", c03GraphIntact(db, n2, "p", "P"))
+	// reopen, then write to the survivor: the new vertex is found through the label index
+	db = NewKVGraph(kv).(*KVGraph)
+	vAssert("C03.graphs.survivor-intact-after-reopen", c03GraphIntact(db, n2, "p", "P"))
+	gi, err := db.Graph(n2)
+	if err != nil {
+		return
+	}
+	gi.AddVertex([]*gdbi.Vertex{{ID: "q", Label: "Q", Data: map[string]interface{}{}}})
+	scan := c16LabelScan(gi, "Q")
+	vAssert("C04.graphs.indexed-after-reopen", len(scan) == 1 && scan[0] == "q")
+	// re-creating the deleted graph starts empty
+	if db.AddGraph(n1) == nil {
+		g1, err := db.Graph(n1)
+		vAssert("C03.graphs.recreated-empty", err == nil && len(vObsVertexIDs(g1)) == 0 && len(vObsEdgeIDs(g1)) == 0)
+	}
 }
